@@ -177,7 +177,12 @@ def gc_states(current):
 
 def build_snapshots(ctx):
     """slot 00 / p0: empty HOME -> run a fixed list of blueprints with hash seed 0 -> home-warm;
-    the same DB minus every third-party row and the access log -> home-tc (toolchain crates only)."""
+    the same DB minus every third-party row and the access log -> home-tc (toolchain crates only);
+    the same DB minus the rows of the path dependency `simdep` and the access log -> home-nodep: the
+    CLEAN WORLD of the golden runs. It holds only rows whose sources no history can change (toolchain
+    crates, registry crates, /repo/runtime/pavex), so nothing in it can be stale with respect to a
+    source edit; the stricter toolchain-only and empty worlds are explored as ordinary histories
+    (init_cache toolchain / empty) and compared against these goldens like everything else."""
     slot = W.Slot(0)
     slot.acquire()
     try:
@@ -188,10 +193,14 @@ def build_snapshots(ctx):
         for ex in run["execs"]:
             if ex["exit"] != 0:
                 harness_error(f"snapshot run of {ex['step']['bp']} exited {ex['exit']}: {ex['stderr'][-800:]}")
-        for name in ("home-warm", "home-tc"):
+        for name in ("home-warm", "home-tc", "home-nodep"):
             W.rmtree(os.path.join(ctx.state_dir, name))
         W.cp_a(slot.home, os.path.join(ctx.state_dir, "home-warm"))
         W.cp_a(slot.home, os.path.join(ctx.state_dir, "home-tc"))
+        W.cp_a(slot.home, os.path.join(ctx.state_dir, "home-nodep"))
+        nodep = os.path.join(ctx.state_dir, "home-nodep")
+        W.evict(nodep, "crate", "simdep")
+        W.evict(nodep, "access_log")
         tc = os.path.join(ctx.state_dir, "home-tc")
         W.evict(tc, "all_third_party")
         import sqlite3
@@ -252,7 +261,7 @@ def ensure_slot_targets(ctx):
 
 
 def golden_history(bp, tog):
-    return {"id": f"golden:{bp}:{state_key(tog)}", "arm": "golden", "golden": True, "init_cache": "toolchain",
+    return {"id": f"golden:{bp}:{state_key(tog)}", "arm": "golden", "golden": True, "init_cache": "nodep",
             "init_toggles": {"p0": list(tog)},
             "steps": [{"op": "exec", "proj": "p0", "mode": "generate", "bp": bp, "hash_seed": 0, "diag": "diag.dot",
                        "timeout": 1800}]}
@@ -797,7 +806,9 @@ def cmd_check(prop, tier):
         "assumptions": [
             "the program dimension is the fixed corpus of /verif/fixtures (12 accepted + 17 rejected blueprints over simapp/simdep)",
             "cargo and rustdoc are deterministic for unchanged sources; only rayon width 1 is explored",
-            "golden bytes come from a clean world (scratch project, toolchain-only cache, hash seed 0) of the same pavexc binary",
+            "golden bytes come from a clean world of the same pavexc binary: fresh scratch project, hash seed 0, cache holding only "
+            "rows whose sources no history edits (toolchain crates, registry crates, /repo/runtime/pavex; no row of the path "
+            "dependency simdep, no access log); toolchain-only and empty caches are explored as history start states",
             "disk-fault and crash arms are not held to C09 items 2-4; their outcomes are recorded as observations",
         ],
         "wall_s": round(wall, 1),
